@@ -178,6 +178,12 @@ let rec existsb f = function
 | [] -> false
 | a :: l0 -> (||) (f a) (existsb f l0)
 
+(** val forallb : ('a1 -> bool) -> 'a1 list -> bool **)
+
+let rec forallb f = function
+| [] -> true
+| a :: l0 -> (&&) (f a) (forallb f l0)
+
 (** val filter : ('a1 -> bool) -> 'a1 list -> 'a1 list **)
 
 let rec filter f = function
@@ -1384,6 +1390,30 @@ let rec updl l i x =
                | O -> x :: t
                | S j -> h :: (updl t j x))
 
+(** val all_free : shared -> bool **)
+
+let all_free s =
+  forallb (fun f -> match f with
+                    | Free _ -> true
+                    | _ -> false) s.ph
+
+(** val warp : config -> z -> config **)
+
+let warp c n0 =
+  let s = c.sh in
+  (match s.q with
+   | [] ->
+     if all_free s
+     then let h' = Z.add s.hd n0 in
+          let p = fun i -> Z.add h' (Z.modulo (Z.sub i h') s.cap) in
+          let idx = map Z.of_nat (seq O (length s.slots)) in
+          { sh = { slots = (map (fun i -> (None, (u32 (p i)))) idx); hd = h';
+          tl0 = (Z.add s.tl0 n0); cap = s.cap; q = []; ph =
+          (map (fun i -> Free (p i)) idx); lin = s.lin }; ths = c.ths; hist =
+          c.hist }
+     else c
+   | _ :: _ -> c)
+
 (** val go :
     config -> z list list -> z list -> z list -> (config * z list) option **)
 
@@ -1391,41 +1421,46 @@ let rec go c progs sched acc =
   match sched with
   | [] -> Some (c, acc)
   | t :: rest ->
-    let i = Z.to_nat t in
-    (match nth_error c.ths i with
-     | Some p ->
-       let prog = nth i progs [] in
-       (match p with
-        | Idle ->
-          (match prog with
-           | [] -> go c progs rest acc
-           | _ :: _ ->
-             let o = match prog with
-                     | [] -> OpPop
-                     | x :: _ -> dec_op x in
-             let progs' =
-               match p with
-               | Idle -> updl progs i (tl prog)
-               | _ -> progs
-             in
-             let ev = observe c.sh p in
-             (match step c (i, o) with
-              | Some c' -> go c' progs' rest (rev_append (t :: ev) acc)
-              | None -> None))
-        | _ ->
-          let o = match prog with
-                  | [] -> OpPop
-                  | x :: _ -> dec_op x in
-          let progs' =
-            match p with
-            | Idle -> updl progs i (tl prog)
-            | _ -> progs
-          in
-          let ev = observe c.sh p in
-          (match step c (i, o) with
-           | Some c' -> go c' progs' rest (rev_append (t :: ev) acc)
-           | None -> None))
-     | None -> go c progs rest acc)
+    if Z.ltb t Z0
+    then go
+           (warp c
+             (Z.add (Z.pow (Zpos (XO XH)) (Zpos (XO (XO (XO (XO (XO XH)))))))
+               t)) progs rest (t :: acc)
+    else let i = Z.to_nat t in
+         (match nth_error c.ths i with
+          | Some p ->
+            let prog = nth i progs [] in
+            (match p with
+             | Idle ->
+               (match prog with
+                | [] -> go c progs rest acc
+                | _ :: _ ->
+                  let o = match prog with
+                          | [] -> OpPop
+                          | x :: _ -> dec_op x in
+                  let progs' =
+                    match p with
+                    | Idle -> updl progs i (tl prog)
+                    | _ -> progs
+                  in
+                  let ev = observe c.sh p in
+                  (match step c (i, o) with
+                   | Some c' -> go c' progs' rest (rev_append (t :: ev) acc)
+                   | None -> None))
+             | _ ->
+               let o = match prog with
+                       | [] -> OpPop
+                       | x :: _ -> dec_op x in
+               let progs' =
+                 match p with
+                 | Idle -> updl progs i (tl prog)
+                 | _ -> progs
+               in
+               let ev = observe c.sh p in
+               (match step c (i, o) with
+                | Some c' -> go c' progs' rest (rev_append (t :: ev) acc)
+                | None -> None))
+          | None -> go c progs rest acc)
 
 (** val fill_val : z -> z **)
 
